@@ -52,11 +52,10 @@ def verifyGpgSignatureJ (C : CryptoFns) (signature key_value : J) (data : Bytes)
   | .obj kvs =>
     let oh ← dictIndex (ps! "other_headers") kvs  -- 517
     let hdr := unhex (strOf oh)
-    if hdr.length ≥ 4294967296 then .error .struct_     -- pack(">I", len) (528)
-    else
-      let sg ← dictIndex (ps! "signature") kvs    -- 537
-      if C.verify (unhex (strOf key_value)) (gpgDigest C data hdr) (unhex (strOf sg)) then okU
-      else .error .invalidSignature               -- 538
+    -- (pack(">I", len(hdr)) at 528 raises struct.error for a header of 4 GiB or more: not modelled)
+    let sg ← dictIndex (ps! "signature") kvs      -- 537
+    if C.verify (unhex (strOf key_value)) (gpgDigest C data hdr) (unhex (strOf sg)) then okU
+    else .error .invalidSignature                 -- 538
   | _ => .error .arg
 
 def verifyGpgSignature (C : CryptoFns) (signature key_value data : PyVal) : Res Unit :=
